@@ -1,17 +1,21 @@
 from .mt_common import MT_TB, MT_RULE, real_thread_run
 
 CFG = dict(
-    coq="Properties/C08.v",
+    coq=["Properties/C08.v", "Properties/C08Units.v"],
     areas=["mt"],
     level="proof",
     theorems_expected=["C08_mt_safety", "C08_mt_once", "C08_mt_tagged", "C08_mt_output_schedule_free",
-                       "C08_cut_fixed_concat", "C08_cut_writes_partition", "C08_unit_cut_sound", "C08_lzip_scan_sound"],
+                       "C08_cut_fixed_concat", "C08_cut_writes_partition", "C08_unit_cut_sound", "C08_lzip_scan_sound",
+                       "C08_lzma2_units_independent", "C08_lzma2_unit_cut_sound", "C08_lzma2_reader_sound",
+                       "C08_lzma2_reader_complete", "C08_lzma2_cut_units", "C08_lzma2_mt_reader_data",
+                       "C08_lzma2_mt_writer_data", "C08_lzma2_mt_writer_mt_reader", "C08_lzip_units_data"],
     rule=MT_RULE,
     trusted_base=MT_TB,
     assumptions=[
         "the unit function does not panic and is a function of the unit (decoders/encoders are deterministic: C13's other clauses)",
-        "LZMA2 unit-cutting soundness is stated over an abstract chunk decoder whose state after a dictionary-reset chunk does not depend "
-        "on the state before (to be discharged by the LZMA2 framing model of C01/C16)",
+        "data side (Properties/C08Units.v): the worker's unit function is the LZMA2Reader / LZMA2Writer / LZIPReader MODEL of C01/C02/C16 "
+        "(tied to the code by those properties' correspondence checks); sources are byte strings; LZMA2WriterMT units: the writer model "
+        "accepts the encoder's decisions (as in C01); LZIP: side conditions of C12_lzip_multi_lzma1",
         "sequence numbers do not wrap (fewer than 2^64 units)",
     ],
     extra=[real_thread_run],
